@@ -30,6 +30,7 @@ def run(repo, run, tier):
     axes(repo, run, fn)
     clipping(repo, run, fn)
     t_eval_rule(repo, run, fn)
+    t_eval_multiset(repo, run, fn)
 
 
 def construction(repo, run, fn):
@@ -229,3 +230,56 @@ def t_eval_rule(repo, run, fn):
     run.judged(rid, "kinded operations on t_eval/t_span: %d, ill-kinded %d" % (len(ke.judged), len(vs)), ok=not vs)
     for v in vs:
         run.report("C18.6", DS, v.node, "DIR discipline: %s: with a decreasing t_span every t_eval is rejected (or visited in the wrong order)" % v.why)
+
+
+MULTISET_PRESERVING = ("asarray", "array", "sort", "sorted", "copy", "astype", "atleast_1d", "ravel", "flip", "to_numpy", "list", "tuple")
+
+
+def t_eval_multiset(repo, run, fn):
+    """returns exactly those times: whatever solve_ivp does to the t_eval it was given before iterating over it must keep every requested time, with its
+    multiplicity (a rearrangement, a conversion or a multiplication by the orientation sign) -- never a selection"""
+    rid = run.rule("C18.7", "the t_eval that is iterated is the given one up to rearrangement: every rebinding of t_eval is built from conversions, sort, reversal "
+                            "and multiplication by a scalar only (no unique/set/mask/slice: a repeated or boundary time would be dropped and the result would have "
+                            "fewer columns than requested)", floor=1)
+    defs = [st for st in walk_no_nested(fn) if isinstance(st, ast.Assign) and any(isinstance(t, ast.Name) and t.id == "t_eval" for t in st.targets)]
+
+    def mentions(n):
+        return any(isinstance(x, ast.Name) and x.id == "t_eval" for x in ast.walk(n))
+
+    def ok_expr(n):
+        if isinstance(n, ast.Name):
+            return n.id == "t_eval", "name `%s`" % n.id
+        if isinstance(n, ast.Call):
+            f = fname(n)
+            if f in MULTISET_PRESERVING and n.args and mentions(n.args[0]) and not any(mentions(a) for a in n.args[1:]):
+                return ok_expr(n.args[0])
+            if isinstance(n.func, ast.Attribute) and n.func.attr in ("copy", "astype", "ravel", "tolist") and mentions(n.func.value):
+                return ok_expr(n.func.value)
+            return False, "`%s(...)`" % (dotted(n.func) or src(n.func))
+        if isinstance(n, ast.BinOp) and isinstance(n.op, (ast.Mult, ast.Div)):
+            if mentions(n.left) and not mentions(n.right):
+                return ok_expr(n.left)
+            if mentions(n.right) and not mentions(n.left) and isinstance(n.op, ast.Mult):
+                return ok_expr(n.right)
+            return False, "`%s`" % src(n)[:60]
+        if isinstance(n, ast.UnaryOp) and isinstance(n.op, (ast.USub, ast.UAdd)):
+            return ok_expr(n.operand)
+        if isinstance(n, ast.Subscript) and mentions(n.value) and isinstance(n.slice, ast.Slice) and n.slice.lower is None and n.slice.upper is None and \
+                isinstance(n.slice.step, ast.UnaryOp) and isinstance(n.slice.step.op, ast.USub) and isinstance(n.slice.step.operand, ast.Constant) and n.slice.step.operand.value == 1:
+            return ok_expr(n.value)
+        return False, "`%s`" % src(n)[:60]
+    for st in defs:
+        if not mentions(st.value):
+            ok, why = False, "a value that does not come from the given t_eval"
+        else:
+            ok, why = ok_expr(st.value)
+        run.judged(rid, "t_eval rebound: %s" % src(st)[:110], ok=ok)
+        if not ok:
+            run.report("C18.7", DS, st, "t_eval is rebound through %s, which is not a rearrangement of the requested times: the result need not contain exactly the times "
+                                        "that were asked for" % why)
+    loops = [st for st in ast.walk(fn) if isinstance(st, ast.For) and mentions(st.iter)]
+    okl = len(loops) == 1 and isinstance(loops[0].iter, ast.Name)
+    run.judged(rid, "the requested times are visited by one loop over t_eval itself: %s" % [src(lp.iter)[:40] for lp in loops], ok=okl)
+    if not okl:
+        run.report("C18.7", DS, loops[0] if loops else fn, "the requested times are not visited by a single `for t in t_eval` loop (a selection or a transformed "
+                                                          "sequence is iterated instead)", text="t_eval loop iterable")
